@@ -28,7 +28,9 @@ ASSUMPTIONS = ['in-memory ZooKeeper fake; requests.post replaced (HTTP boundary;
 BUDGET = {'quick': (40, 30.0), 'thorough': (800, 240.0)}
 REQUIRED_REACH = {'*': ['evaluations', 'creates_ok', 'scale_down_calls', 'rate_limited', 'handled_failures', 'suspended_evaluations',
                         'monitors_deleted', 'converged_histories', 'evaluations_creating_more_than_100_instances',
-                        'faults_hitting_a_later_request', 'rate_limited_with_target_above_100']}
+                        'faults_hitting_a_later_request', 'rate_limited_with_target_above_100',
+                        'evaluations_in_the_last_second_of_a_suspension_off_target', 'monitors_configured_to_the_schema_maximum',
+                        'instances_started_by_hand']}
 
 
 TOOL = 4
@@ -105,6 +107,7 @@ def run(ctx):
         violated = [False]
         race = dict(armed=False, busy=False, n=0, at=0)
         last_args = []
+        maxed = []        # evaluations before which the large application was configured to the schema maximum
 
         intent = {}       # name -> the scale policy the operator configured last (a count-only update keeps it)
 
@@ -243,6 +246,8 @@ def run(ctx):
             for name, r in ref.items():
                 if name in susp and susp[name][0] > now:
                     if susp[name][1] == r['czxid']:
+                        if susp[name][0] - now < 1.0 and len(before.get(name, [])) != r['count']:
+                            ctx.count('evaluations_in_the_last_second_of_a_suspension_off_target')
                         continue
                     # deleted and re-created while suspended: keeping or dropping the suspension are both fine
                     maybe.add(name)
@@ -389,20 +394,39 @@ def run(ctx):
                         ctx.count('converged_histories')
                 return
             jumps = [1, 1, 1, 1, 5, 30, 120, 300, 301, 1800, 3600, 7200] if large is None else [1, 1, 1, 1, 5, 30, 120, 300, 301]
-            clock.advance(rng.choice(jumps) if rng.random() < 0.35 else 1.0)
+            now_ = clock.peek()
+            ending = sorted({dl for n_, (dl, _cz) in susp.items() if n_ in ref and dl >= now_ + 1.0})
+            if ending and rng.random() < 0.2:
+                # the clock has sub-second resolution and the loop does not run on whole seconds: the next evaluation falls
+                # within a second of the moment a suspension ends (before it, exactly at it, just after it).  Eighths of a
+                # second: exact in binary and in the millisecond stamps of the ZooKeeper nodes.
+                clock.set(max(now_ + 1.0, rng.choice(ending) + rng.choice([-0.875, -0.5, -0.25, -0.125, 0.0, 0.125])))
+                ctx.count('clock_set_within_a_second_of_a_suspension_deadline')
+            else:
+                clock.advance(rng.choice(jumps) if rng.random() < 0.35 else 1.0)
             for _ in range(rng.choice([0, 1, 1, 2] if large is None else [1, 2, 2, 3])):
-                op = rng.choice(['die', 'die', 'die', 'count', 'count', 'policy', 'delmon', 'newmon', 'fail', 'fail', 'faildel', 'flap', 'refuse', 'drop', 'midreq', 'midreq', 'race', 'race', 'race-monitor', 'race-monitor', 'purge-and-fail'])
+                op = rng.choice(['die', 'die', 'die', 'count', 'count', 'policy', 'delmon', 'newmon', 'fail', 'fail', 'faildel', 'flap', 'refuse', 'drop', 'midreq', 'midreq', 'race', 'race', 'race-monitor', 'race-monitor', 'purge-and-fail', 'start'])
                 name = rng.choice(apps)
                 if large is not None and rng.random() < 0.6:
                     name = large
-                    op = rng.choice(['die', 'die', 'die', 'die', 'fail', 'fail', 'fail', 'count', 'drop', 'refuse', 'policy'])
+                    op = rng.choice(['die', 'die', 'die', 'die', 'fail', 'fail', 'fail', 'count', 'drop', 'refuse', 'policy', 'start'])
                 if op == 'die':
                     cur = scheduled_of(name)
-                    if cur:
+                    if len(cur) > 300:
+                        # (an application running at the schema maximum loses instances by the dozen, not all at once: cost)
+                        masterapi.delete_apps(admin, rng.sample(cur, rng.randint(1, 40)), 'test')
+                    elif cur:
                         masterapi.delete_apps(admin, cur if name == large and rng.random() < 0.6 else rng.sample(cur, rng.randint(1, len(cur))), 'test')
                 elif op == 'count' and name == large:
                     if rng.random() < 0.3:
-                        configure(name, rng.choice([0, 101, 120, 250]), None)
+                        # (1000 is the largest count the schema admits)
+                        count_ = rng.choice([0, 101, 120, 250, 1000, 1000])
+                        if count_ == 1000 and maxed:
+                            count_ = 250          # (once per history: cost)
+                        configure(name, count_, None)
+                        if count_ == 1000:
+                            maxed.append(n_eval[0])
+                            ctx.count('monitors_configured_to_the_schema_maximum')
                 elif op == 'count':
                     configure(name, rng.choice([0, 1, 2, 3, 5, 8, 12]), None)
                 elif op == 'policy' and name in ref:
@@ -411,6 +435,10 @@ def run(ctx):
                     drop_monitor(name)
                 elif op == 'newmon' and name not in ref:
                     configure(name, rng.choice([1, 2, 4, 6]), rng.choice([None, 'fifo', 'lifo']))
+                elif op == 'start':
+                    # somebody starts instances of the application by hand (not through the monitor)
+                    masterapi.create_apps(admin, name, {'memory': '1G'}, rng.randint(1, 3), 'test')
+                    ctx.count('instances_started_by_hand')
                 elif op == 'fail':
                     # the create request that fails is the next one for this application, or the one after 1-2 served ones
                     fail_next[name] = [rng.choice([0, 0, 1, 1, 2]), rng.choice(['notfound', 'badrequest', 'validation', 'other', 'unreachable']), False]
